@@ -17,6 +17,7 @@ import time
 
 ROOT = os.path.dirname(os.path.abspath(__file__))
 SEEDED = os.path.join(ROOT, "seeded")
+REPO = os.environ.get("VERIF_REPO", "/repo")
 ENV = dict(os.environ, CARGO_NET_OFFLINE="true")
 
 
@@ -129,11 +130,11 @@ def cmd_run(name, props):
     m = load(name)
     props = props or [m["property"]]
     d = os.path.join(SEEDED, name)
-    rc, out = sh("git -C /repo status --porcelain --untracked-files=no")
+    rc, out = sh("git -C %s status --porcelain --untracked-files=no" % REPO)
     if out.strip():
         print("refusing: /repo has uncommitted changes:\n" + out)
         return 2
-    rc, out = sh("git -C /repo apply %s/patch.diff" % d)
+    rc, out = sh("git -C %s apply %s/patch.diff" % (REPO, d))
     if rc != 0:
         print("patch does not apply:", out)
         return 2
@@ -146,10 +147,39 @@ def cmd_run(name, props):
                             "first_detail": next((l.strip()[:400] for l in out.splitlines() if l.startswith("  ") and "signature" not in l), "")}
             print(name, p, m["runs"][p]["verdict"], sigs[:3])
     finally:
-        sh("git -C /repo checkout -- .")
+        sh("git -C %s checkout -- ." % REPO)
         # evidence/replays written while /repo was modified do not describe the unchanged tree
         sh("git checkout -- evidence 2>/dev/null; rm -f replays/*.json", cwd=ROOT)
     save(name, m)
+    return 0
+
+
+def cmd_matrix(outfile, stages="chk"):
+    """every seeded change x every property's quick check (chk stage only): which checks catch which changes"""
+    props = ["C%02d" % i for i in range(1, 18)]
+    res = {}
+    if os.path.exists(outfile):
+        res = json.load(open(outfile))
+    env = dict(ENV, VERIF_STAGES=stages)
+    for name in sorted(os.listdir(SEEDED)):
+        if not os.path.exists(meta_path(name)) or name in res:
+            continue
+        d = os.path.join(SEEDED, name)
+        rc, out = sh("git -C %s apply %s/patch.diff" % (REPO, d))
+        if rc != 0:
+            res[name] = {"error": "patch does not apply"}
+            continue
+        row = {}
+        try:
+            for p in props:
+                pr = subprocess.run(["./check", p, "quick"], cwd=ROOT, env=env, stdout=subprocess.PIPE, stderr=subprocess.STDOUT, text=True)
+                sigs = [l.strip().split("signature: ")[1].split(" (x")[0] for l in pr.stdout.splitlines() if "signature: " in l]
+                row[p] = {"verdict": {0: "-", 1: "CAUGHT", 3: "inconclusive"}.get(pr.returncode, "rc%d" % pr.returncode), "signatures": sigs[:3]}
+        finally:
+            sh("git -C %s checkout -- ." % REPO)
+        res[name] = row
+        json.dump(res, open(outfile, "w"), indent=1, sort_keys=True)
+        print(name, " ".join("%s:%s" % (p, row[p]["verdict"][0]) for p in props), flush=True)
     return 0
 
 
@@ -178,6 +208,8 @@ if __name__ == "__main__":
         sys.exit(0 if r.get("ok") else 1)
     elif len(a) >= 3 and a[1] == "run":
         sys.exit(cmd_run(a[2], a[3:]))
+    elif len(a) >= 3 and a[1] == "matrix":
+        sys.exit(cmd_matrix(a[2]))
     elif len(a) >= 2 and a[1] == "table":
         cmd_table()
     else:
